@@ -8,6 +8,7 @@ mod c07;
 mod c08;
 mod c09;
 mod c10;
+mod c12;
 mod c13;
 mod c16;
 mod c17;
@@ -30,6 +31,9 @@ fn main() {
     report::quiet_panics();
     if args[1] == "--c04-depth" {
         std::process::exit(c04::depth_child(args.get(2).map(|s| s.as_str()).unwrap_or("")));
+    }
+    if args[1] == "--c12-digest" {
+        std::process::exit(c12::digest_child());
     }
     if args[1] == "universe" {
         let level: u8 = args.get(2).and_then(|x| x.parse().ok()).unwrap_or(0);
@@ -75,6 +79,7 @@ fn main() {
         "C08" => c08::run(tier),
         "C09" => c09::run(tier),
         "C10" => c10::run(tier),
+        "C12" => c12::run(tier),
         "C13" => c13::run(tier),
         "C16" => c16::run(tier),
         "C17" => c17::run(tier),
